@@ -46,6 +46,7 @@ def run(ctx) -> None:
     rep.rule("C13.R2", "dispatchers constructed by the runners are non-strict", floor=2)
     rep.rule("C13.R3", "no processor method is called outside events/dispatcher.py", floor=1)
     rep.rule("C13.R7", "event builders are total: observer-only code between the runner and the dispatcher's guard cannot raise on run data", floor=7)
+    rep.rule("C13.R8", "observer-only code shares no mutable process state with node functions: nothing under events/ or the runners draws from (or seeds) the process-global random generator", floor=40)
     rep.rule("C13.R4", "code guarded by the 'active' flag only builds and emits events", floor=6)
     rep.rule("C13.R5", "dispatcher shutdown of a top-level call happens in a finally block", floor=4)
     rep.rule("C13.R6", "the list of processors is fixed after construction (own copy, never modified by a dispatcher method)", floor=5)
@@ -145,6 +146,26 @@ def run(ctx) -> None:
                 rep.bad("C13.R3", f"{f.qname}:{src(c.func)}", f"{f.module.rel}:{c.lineno}", "processor method (or an unresolved call of that name) invoked outside the dispatcher's guarded delivery")
     rep.add("C13.R3", "positive-example:events/dispatcher.py", inside >= 4, "src/hypergraph/events/dispatcher.py:1", f"{inside} guarded processor call sites recognised inside the dispatcher (the matcher works)")
 
+
+    # ---- R8 ---------------------------------------------------------------------
+    # event ids, span ids and events are built only when processors are attached (or in different numbers then): a draw
+    # from the process-global `random` generator there shifts what a node function that uses seeded `random` sees next —
+    # the run's values then differ between 'with processors' and 'without'.  uuid4/os.urandom/secrets/time are not shared state.
+    GLOBAL_RNG = {"random", "randint", "randrange", "getrandbits", "choice", "choices", "shuffle", "sample", "uniform", "gauss", "seed", "randbytes", "betavariate", "expovariate", "normalvariate", "triangular"}
+    for f8 in db.funcs_in("events") + db.funcs_in("runners"):
+        bad8 = []
+        for c in db.calls_in(f8):
+            d8 = dotted(c.func) or ""
+            parts = d8.split(".")
+            if len(parts) == 2 and parts[0] == "random" and parts[1] in GLOBAL_RNG:
+                sym = db.resolve_name("random", f8.module, f8)
+                if sym is None or sym[0] != "class":
+                    bad8.append(c)
+            elif len(parts) == 1 and parts[0] in GLOBAL_RNG:
+                imp = f8.module.imports.get(parts[0]) if hasattr(f8.module, "imports") else None
+                if imp and str(imp).startswith("random"):
+                    bad8.append(c)
+        rep.add("C13.R8", f"{f8.qname}:no-global-rng", not bad8, f"{f8.module.rel}:{bad8[0].lineno if bad8 else f8.lineno}", "does not touch the process-global random generator" if not bad8 else f"'{src(bad8[0])[:50]}' draws from the process-global random generator in code whose execution depends on whether processors are attached: a node reading seeded `random` afterwards computes a different value with observers than without")
     # ---- R4 -----------------------------------------------------------------
     emit_names = {"emit", "emit_async"}
 
